@@ -224,6 +224,27 @@ def runs_suite(ctx: Ctx, n: int, modes: List[str]) -> None:
                 ctx.disagree("syncRun", {"spec": spec}, {"begun": order, "returned": rr.error is None}, o)
 
 
+def overlap_with_join_or_transform(exp: Dict[str, Any], events: List[Dict[str, Any]]) -> bool:
+    """True when a JOIN or TRANSFORM step was open at the same time as another step that writes the same compute framework's object
+    (feature-group step: its framework; join: the left framework; transform: the target framework).  Input class of
+    F-C01-thread-join-step-overlap: the THREADING lost update with a join / transform step as one of the two writers."""
+    steps = exp["steps"]
+
+    def target(st: Dict[str, Any]) -> Any:
+        return st.get("fw") if st["kind"] == "fg" else st.get("left") if st["kind"] == "join" else st.get("to")
+
+    open_: Set[int] = set()
+    for k, i in S.obs_of(exp, events):
+        if k == "b":
+            for j in open_:
+                if target(steps[j]) == target(steps[i]) and (steps[i]["kind"] != "fg" or steps[j]["kind"] != "fg"):
+                    return True
+            open_.add(i)
+        else:
+            open_.discard(i)
+    return False
+
+
 def jd_split_step_no_join(spec: Dict[str, Any], exp: Dict[str, Any]) -> bool:
     """Input class of the finding F-C01-split-step-no-join (same mechanism as C02's F-C02-cfw-split-step-no-join): the needed features of
     the consumer group descend from BOTH sources, but no needed feature descends from both - every needed feature sits over one source
@@ -293,6 +314,8 @@ def join_suite(ctx: Ctx, n: int, modes: List[str]) -> None:
                 known = "multiprocessing-transform-step-from-non-arrow-producer"
             elif mode == "mp" and S.mp_unuploaded_tfs_source(exp):
                 known = "multiprocessing-transform-source-not-uploaded"
+            elif mode == "thread" and overlap_with_join_or_transform(exp, rr.events):
+                known = "threading-join-or-transform-step-overlaps-a-step-on-the-same-framework"
             if known and (rr.error or rr.timed_out):
                 ctx.violation("join_runs", case, f"run of a join DAG failed in mode {mode}: {(rr.error or 'timeout')[-160:]}", (rr.error or "timeout")[-300:], "return", finding_class=known)
                 continue
